@@ -103,8 +103,8 @@ def hyd_net(draw, max_n=10, fluids=None, allow_oos=True, allow_pi=True, allow_ct
                 choices += ["press_control"]
                 if gas:
                     choices += ["compressor", "compressor"]
-                if allow_pumps and (not gas or draw(st.integers(0, 3)) == 0):
-                    choices += ["pump"]
+                if allow_pumps and not gas:
+                    choices += ["pump", "pump"]
         else:
             choices = ["pipe"] * 6 + ["valve"] * 2
             if allow_ctrl:
@@ -133,9 +133,11 @@ def hyd_net(draw, max_n=10, fluids=None, allow_oos=True, allow_pi=True, allow_ct
                              "inner_diameter_mm": d, "opened": True,
                              "loss_coefficient": draw(st.sampled_from([0.0, 0.0, 1.0, 8.0]))})
         elif typ == "pump":
+            a, b = min(a, b), max(a, b)     # pumps and compressors point away from the root feeder
             elements.append({"table": "pump", "index": nxt("pump"), "from_junction": a, "to_junction": b,
                              "std_type": draw(st.sampled_from(PUMP_TYPES)), "in_service": True})
         elif typ == "compressor":
+            a, b = min(a, b), max(a, b)
             elements.append({"table": "compressor", "index": nxt("compressor"), "from_junction": a,
                              "to_junction": b, "pressure_ratio": draw(fl(1.0, 2.5)), "in_service": True})
         elif typ == "press_control":
@@ -154,7 +156,7 @@ def hyd_net(draw, max_n=10, fluids=None, allow_oos=True, allow_pi=True, allow_ct
         elif typ == "heat_exchanger":
             elements.append({"table": "heat_exchanger", "index": nxt("heat_exchanger"), "from_junction": a,
                              "to_junction": b, "qext_w": draw(fl(-2e4, 2e4)),
-                             "inner_diameter_mm": draw(st.sampled_from(PIPE_D)),
+                             "inner_diameter_mm": draw(st.sampled_from([80.0, 100.0, 150.0, 200.0])),
                              "loss_coefficient": draw(st.sampled_from([0.0, 1.0, 5.0])), "in_service": True})
     # crude capacity: the flow that one pipe alone could carry with the available pressure drop
     if gas:
@@ -176,8 +178,11 @@ def hyd_net(draw, max_n=10, fluids=None, allow_oos=True, allow_pi=True, allow_ct
             e["controlled_mdot_kg_per_s"] = mscale * draw(fl(0.02, 0.3))
     # ---- feeders
     n_eg = draw(st.sampled_from([1, 1, 1, 2, 2, 3]))
+    pc_controlled = {e["controlled_junction"] for e in elements if e["table"] == "press_control"}
+    free_j = [i for i in range(n) if i not in pc_controlled]
     for k in range(n_eg):
-        j = 0 if k == 0 else draw(st.integers(0, n - 1))
+        # a junction that is pressure-controlled must not carry an ext grid as well (over-determined)
+        j = 0 if k == 0 else free_j[draw(st.integers(0, len(free_j) - 1))]
         typ = draw(st.sampled_from(["pt", "pt", "p", "auto"]))
         pe = p0 if (k == 0 or draw(st.booleans())) else p0 * draw(fl(0.9, 1.1))
         e = {"table": "ext_grid", "index": nxt("ext_grid"), "junction": j, "p_bar": pe,
@@ -198,6 +203,14 @@ def hyd_net(draw, max_n=10, fluids=None, allow_oos=True, allow_pi=True, allow_ct
              "scaling": draw(st.sampled_from([1.0, 1.0, 1.0, 0.5, 2.0] + ([] if all_flowing else [0.0]))),
              "in_service": True}
         elements.append(e)
+    if not zero:
+        # a pump / compressor without consumption behind it sits at the discontinuity of its lift (zero flow):
+        # give its outlet junction a consumer
+        for e in list(elements):
+            if e["table"] in ("pump", "compressor", "press_control"):
+                elements.append({"table": "sink", "index": nxt("sink"), "junction": e["to_junction"],
+                                 "mdot_kg_per_s": mscale / max(n_loads, 1) * draw(fl(0.2, 1.0)), "scaling": 1.0,
+                                 "in_service": True})
     if all_flowing:
         # every dead end gets a consumer so that (almost) every branch carries flow
         deg = {i: 0 for i in range(n)}
@@ -234,24 +247,27 @@ def hyd_net(draw, max_n=10, fluids=None, allow_oos=True, allow_pi=True, allow_ct
     # ---- creation order (non-junction elements); pi valves must follow their pipe
     if draw(st.booleans()):
         perm = draw(st.permutations(list(range(len(elements)))))
-        elements2 = [elements[i] for i in perm]
-        # stable fix-up: move pi valves after their pipes
-        placed, out, pending = set(), [], []
-        for e in elements2:
-            if e["table"] == "valve" and e["et"] == "pi" and e["element"] not in placed:
-                pending.append(e)
-                continue
-            out.append(e)
-            if e["table"] == "pipe":
-                placed.add(e["index"])
-                for p in [p for p in pending if p["element"] == e["index"]]:
-                    out.append(p)
-                    pending.remove(p)
-        out.extend(pending)
-        rec["elements"] = out
+        rec["elements"] = fix_pi_order([elements[i] for i in perm])
     if labels:
         rec = draw(relabel(rec))
     return rec
+
+
+def fix_pi_order(elements):
+    """stable fix-up of a creation order: junction-pipe valves are moved behind their pipe."""
+    placed, out, pending = set(), [], []
+    for e in elements:
+        if e["table"] == "valve" and e["et"] == "pi" and e["element"] not in placed:
+            pending.append(e)
+            continue
+        out.append(e)
+        if e["table"] == "pipe":
+            placed.add(e["index"])
+            for p in [p for p in pending if p["element"] == e["index"]]:
+                out.append(p)
+                pending.remove(p)
+    out.extend(pending)
+    return out
 
 
 def apply_label_maps(rec, jmap, tmaps, row_orders=None):
@@ -324,9 +340,11 @@ def relabel(draw, rec, force=False):
 def hyd_case(draw, tight=None, numba=None, **kw):
     """(recipe, options): the friction model is drawn first because Colebrook-White does not converge on
     branches with (almost) zero flow - for it every dead end carries a load and nothing is out of service."""
-    fm = draw(st.sampled_from(["nikuradse", "nikuradse", "colebrook", "swamee-jain"]))
-    if fm == "colebrook":
-        kw = dict(kw, all_flowing=True)
+    fm = draw(st.sampled_from(["nikuradse"] * 4 + ["swamee-jain"] * 2 + ["colebrook"]))
+    if fm != "nikuradse":
+        # Colebrook-White (implicit) and Swamee-Jain (singular at Re ~ 7) are turbulent-flow formulas: they fail on
+        # branches with (almost) no flow, so these models get nets in which every branch carries flow
+        kw = dict(kw, all_flowing=True, allow_ctrl=False, allow_pi=False, extra_edges=1, allow_parallel=False)
     rec = draw(hyd_net(**kw))
     t = draw(st.booleans()) if tight is None else tight
     opts = draw(hyd_options(tight=t, numba=numba, friction_model=fm))
